@@ -186,10 +186,11 @@ CPU_ASSUME = [
 ]
 
 
-def ctx_runs(only, seed):
-    """calling-context probes of one group (harness family ctx, validated by Trace_Cpu.CtxOK)"""
-    return [{"name": "ctx_%s%d" % (only, seed), "prof": prof, "trace_module": "Trace_Cpu",
-             "args": ["ctx", "--prop", only, "--seed", str(seed)]} for prof in ("dev", "rel")]
+def ctx_runs(only, seed, tier="quick"):
+    """calling-context probes of one group (harness family ctx, validated by Trace_Cpu.CtxOK); thorough: 6 seeds"""
+    return [{"name": "ctx_%s%d" % (only, sd), "prof": prof, "trace_module": "Trace_Cpu",
+             "args": ["ctx", "--prop", only, "--seed", str(sd)]}
+            for sd in ([seed] if tier == "quick" else [seed + 13 * k for k in range(6)]) for prof in ("dev", "rel")]
 
 
 def cpu_plan(family, n_quick, n_thorough, rule, design=(), extra_runs=(), exhaustive=False, exhaustive_note=None):
@@ -205,10 +206,11 @@ def cpu_plan(family, n_quick, n_thorough, rule, design=(), extra_runs=(), exhaus
             runs.append(er(tier, seed))
         if family in ("intr", "ports"):
             # calling-context probes (flags, argument registers, red zone, repeated calls) around the wrappers
-            for prof in ("dev", "rel"):
-                runs.append({"name": "ctx%d" % seed, "prof": prof, "args": ["ctx", "--prop", family, "--seed", str(seed)]})
+            runs += ctx_runs(family, seed, tier)
         if family == "flush":
-            runs += ctx_runs("tlb", seed)
+            runs += ctx_runs("tlb", seed, tier)
+        if family == "regs":
+            runs += ctx_runs("regs", seed + 1, tier)
         dz = [dict(d) for d in design]
         if tier == "thorough":
             dz += [{"module": d["module"], "cfg": d["cfg"].replace("tlbq", "tlb"), "workers": 16, "timeout": 7200, "xmx": "16g"}
@@ -347,7 +349,7 @@ def gdt_plan(family, n_quick, n_thorough, rule, design):
                 runs.append({"name": "%s%d" % (family, sd), "prof": prof, "args": [family, "--seed", str(sd), "--n", str(n)]})
         runs += machine_runs(tier, seed)
         if family == "gdt":
-            runs += ctx_runs("tables", seed)
+            runs += ctx_runs("tables", seed, tier)
         return {"design": [dict(d) for d in design] + [MACHINE_DESIGN], "runs": runs, "trace_module": "Trace_Gdt", "level": "model_checking",
                 "rule": rule + MACHINE_RULE, "assumptions": CPU_ASSUME[:1] + ADDR_ASSUME[2:] + ["descriptor formats in Gdt.tla are transcribed from SDM vol. 3 ch. 3.4.5 / 7.2.3 (AMD APM vol. 2 ch. 4.7-4.8)"],
                 "replay_lines": gdt_replay_lines}
@@ -373,7 +375,7 @@ def idt_plan(family, n_quick, n_thorough, rule, design, exhaustive_note=None):
                              "args": [family, "--seed", str(sd), "--n", str(n if k == 0 else min(n, 50000))], "vtimeout": 7200})
         if family == "idt":
             runs += machine_runs(tier, seed)
-            runs += ctx_runs("tables", seed)
+            runs += ctx_runs("tables", seed, tier)
         return {"design": [dict(d) for d in design] + ([MACHINE_DESIGN] if family == "idt" else []), "runs": runs, "trace_module": "Trace_Idt", "level": "model_checking",
                 "rule": rule + (MACHINE_RULE if family == "idt" else ""), "assumptions": CPU_ASSUME[:1] + ["the 64-bit gate format, vector classes (reserved / error-code / diverging) in Idt.tla are transcribed from SDM vol. 3 ch. 6 (APM vol. 2 ch. 8)"] + ADDR_ASSUME[2:],
                 "exhaustive_note": exhaustive_note}
